@@ -49,6 +49,8 @@ __gmp_tmp_reentrant_alloc (struct tmp_reentrant_t **markp, size_t size)
   char    *p;
   size_t  total_size;
 
+  MPIR_VERIF_POINT (MPIR_VERIF_PT_TMP_REENTRANT_ALLOC);
+
 #define P   ((struct tmp_reentrant_t *) p)
 
   total_size = size + HSIZ;
